@@ -1,7 +1,7 @@
 #!/usr/bin/env python3
 """Regenerate the findings and seeded-mutant tables of DESIGN.md (between the markers).
 
-usage: tools/mkdesign_tables.py [sweep-log]
+usage: tools/mkdesign_tables.py [sweep-log-seed-1 [sweep-log-seed-2]]
 """
 import json
 import os
@@ -44,9 +44,15 @@ def findings():
     return "\n".join(out)
 
 
-def mutants(log):
-    rows = ["| mutant | what was changed (sub-agent's summary) | result (quick tier) and first failing clause | "
-            "strengthened after a first miss |", "|---|---|---|---|"]
+def mutants(log, log2=None):
+    second = {}
+    if log2:
+        for line in open(log2):
+            parts = [x.strip() for x in line.split("|")]
+            if len(parts) >= 2:
+                second[parts[0]] = "caught" if "CAUGHT" in parts[1] else "MISSED"
+    rows = ["| mutant | what was changed (sub-agent's summary) | result (quick tier, seed 1) and first failing "
+            "clause | seed 2 | strengthened after a first miss |", "|---|---|---|---|---|"]
     caught = total = 0
     for line in open(log):
         parts = [x.strip() for x in line.split("|")]
@@ -60,12 +66,17 @@ def mutants(log):
         clause = parts[2].split(":")[0] if len(parts) > 2 else ""
         total += 1
         caught += "CAUGHT" in parts[1]
-        rows.append("| %s | %s | %s `%s` | %s |" % (mid, summ, parts[1].replace(" (quick)", ""), clause,
-                                                    STRENGTHENED.get(mid, "")))
+        rows.append("| %s | %s | %s `%s` | %s | %s |" % (mid, summ, parts[1].replace(" (quick)", ""), clause,
+                                                         second.get(mid, ""), STRENGTHENED.get(mid, "")))
     rows.append("")
     rows.append("%d of %d seeded mutants are caught by the quick tier of the check of their property (sweep of the "
                 "final tree, VERIF_SEED=1). %d of them were missed by the first version of the check; the last "
                 "column names what was added." % (caught, total, len(STRENGTHENED)))
+    if second:
+        n2 = sum(1 for v in second.values() if v == "caught")
+        rows.append("")
+        rows.append("Column 'seed 2': the same sweep with VERIF_SEED=2 (%d of %d caught; an empty cell means the "
+                    "mutant was not part of that sweep)." % (n2, len(second)))
     return "\n".join(rows)
 
 
@@ -76,7 +87,8 @@ def main():
                lambda m: "<!-- FINDINGS-BEGIN -->\n" + findings() + "\n<!-- FINDINGS-END -->", s, flags=re.S)
     if len(sys.argv) > 1:
         s = re.sub(r"<!-- MUTANTS-BEGIN -->.*?<!-- MUTANTS-END -->",
-                   lambda m: "<!-- MUTANTS-BEGIN -->\n" + mutants(sys.argv[1]) + "\n<!-- MUTANTS-END -->", s,
+                   lambda m: "<!-- MUTANTS-BEGIN -->\n" + mutants(sys.argv[1], sys.argv[2] if len(sys.argv) > 2
+                                                                    else None) + "\n<!-- MUTANTS-END -->", s,
                    flags=re.S)
     open(path, "w").write(s)
 
